@@ -58,6 +58,10 @@ def numeric_ref(t):
     return '&#' + body + (';' if not t.chance(30) else '')
 
 
+# constructs that may not occur inside a link, nested one level below the link text
+INLINE += ['[*<http://a.b>*](/u)', '[**to <me@x.org>** now](/u "t")', '[![<http://a.b>](/i.png)](/u)', '[~~<http://a.b>~~][l]', '[_[in](/n)_](/u)']
+# a table head that a paragraph line precedes and indentation hands to another block type
+BLOCK_OPENERS += ['foo\n    a | b\n    --- | ---', 'foo\n\ta | b\n\t-|-\n\nbar', 'foo\n2. a | b\n-|-']
 # task-list markers of other dialects: plain text here
 INLINE += ['[ ] ', '[x] ', '[X] ', '[x]', '[ ]\t']
 CONTAINER_PREFIXES += ['- [x] ', '1. [ ] ', '* [X] ']
